@@ -917,3 +917,53 @@ fn c18_stream_info_setters() {
     kani::cover!(!r1 && a > b);
     kani::cover!(!r2);
 }
+
+fn x_fixed<const NW: usize>(rw: usize, mode: u8) {
+    let warm: [i32; NW] = kani::any();
+    let bps: usize = kani::any();
+    let Some(res) = any_public_residual(rw) else {
+        return;
+    };
+    match FixedLpc::new(&warm, res, bps) {
+        Ok(c) => {
+            let c = FixedLpc {
+                warm_up: c.warm_up,
+                residual: residual_with_concrete_shape(c.residual, 0, 3, rw),
+                bits_per_sample: c.bits_per_sample,
+            };
+            if mode == 0 { return; }
+            if mode == 1 { assert!(c.verify().is_ok()); return; }
+            if mode == 2 { serialises_len(&c); return; }
+            if mode == 3 { serialises(&c); return; }
+        }
+        Err(_) => {},
+    }
+}
+macro_rules! xf {
+    ($name:ident, $mode:expr) => {
+        #[kani::proof]
+        #[kani::unwind(8)]
+        #[kani::stub(std::fmt::format, stub_format)]
+        #[kani::stub(find_max, contract_find_max)]
+        #[kani::stub(wrapping_sum, contract_wrapping_sum)]
+        fn $name() {
+            x_fixed::<1>(1, $mode);
+        }
+    };
+}
+
+/// Replacement for `VerifyError::within` (appends a path component to an error value): the
+/// harnesses only observe `is_ok()/is_err()`, and growing a `Vec<String>` merged over ~30 error
+/// paths is what makes `FixedLpc::verify` / `Lpc::verify` intractable (> 400 s -> 20 s).
+fn stub_within(e: VerifyError, _component: &str) -> VerifyError {
+    e
+}
+#[kani::proof]
+#[kani::unwind(8)]
+#[kani::stub(std::fmt::format, stub_format)]
+#[kani::stub(find_max, contract_find_max)]
+#[kani::stub(wrapping_sum, contract_wrapping_sum)]
+#[kani::stub(VerifyError::within, stub_within)]
+fn x18_f1() {
+    x_fixed::<1>(1, 1);
+}
